@@ -4,6 +4,9 @@ package snaps
 
 import (
 	"path/filepath"
+	"runtime"
+	"strings"
+	"testing"
 
 	"github.com/gkampitakis/go-snaps/internal/vxrt"
 )
@@ -36,11 +39,11 @@ func h11Helper2(c *Config, name string, standalone bool) (string, string) {
 // a test function in a second test file of the package: natively the closure is
 // provided by other_test.go of the harness directory, symbolically the frame is tagged
 var viaOtherTestFile func(func())
-var otherTestFileBase = "other_test"
+var otherTestFileBase = "other.dot_test"
 
 func h11ViaOther(f func()) {
 	if vxrt.Symbolic() {
-		vxrt.FrameFile("/pkg/other_test.go")
+		vxrt.FrameFile("/pkg/other.dot_test.go")
 		f()
 		return
 	}
@@ -201,4 +204,41 @@ func replaceSlash(s string) string {
 		}
 	}
 	return out
+}
+
+// H_C11_nontest: the test function itself lives in a non-test source file (a body handed to
+// t.Run from a suite package runs on a stack of its own, rooted in testing.tRunner, with no
+// _test.go frame on it) and
+// reaches go-snaps through code in another non-test file: the snapshot belongs to the test
+// function's file (the outermost frame), not to the file of whatever frame sits next to go-snaps.
+func H_C11_nontest() {
+	vxrt.Chdir()
+	var opts []func(*Config)
+	dirOpt := "__snapshots__"
+	switch vxrt.Choice("dir", 3) {
+	case 1:
+		dirOpt = "snaps/x"
+		opts = append(opts, Dir(dirOpt))
+	case 2:
+		dirOpt = "/abs/x"
+		opts = append(opts, Dir(dirOpt))
+	}
+	c := WithConfig(opts...)
+	standalone := vxrt.Bool("standalone")
+	var got, rootFile string
+	vxrt.RunAsSubtest(func(*testing.T) {
+		_, rootFile, _, _ = runtime.Caller(0)
+		got, _ = h11bHelper(c, "TestN", standalone)
+	})
+	base := strings.TrimSuffix(filepath.Base(rootFile), ".go")
+	name := base + ".snap"
+	if standalone {
+		name = "TestN_%d.snap"
+	}
+	want := filepath.Join(filepath.Dir(rootFile), dirOpt, name)
+	if dirOpt[0] == '/' {
+		want = filepath.Join(dirOpt, name)
+	}
+	vxrt.Logf("got=" + got + " want=" + want + " root=" + rootFile)
+	vxrt.Assert(got == want, "C11:location-follows-the-test-function's-file")
 }
